@@ -1,6 +1,7 @@
 """C04 Evaluator never receives both labels of a wire (offset stays secret)."""
 import hashlib
 import json
+import os
 import re
 
 import vlib
@@ -35,6 +36,11 @@ THEOREMS = [
     "Mpc.Sym.C04_inv_zero_tweak_stream_leaks",
     "Mpc.Sym.C04_stream_safe_accounting",
     "Mpc.Sym.C04_stream_no_two_labels_of_a_wire",
+    # definedness of every gate input of a stream: Model/StreamDef.lean (driver op c04def), Proofs/StreamDef.lean
+    "Mpc.wfArr_eq_wfFrom",
+    "Mpc.Sym.C04_undefined_input_and_rows",
+    "Mpc.Sym.C04_stream_undefined_input_leaks",
+    "Mpc.Sym.C04_stream_defined_sessions_secret",
     "Mpc.Sym.C04_both_labels_leak",
     "Mpc.Sym.C04_ot_range_guard",
     "Mpc.Sym.C04_ot_range_unguarded_leaks",
@@ -133,17 +139,30 @@ def run(ctx):
         # with the per-kind accounting of the model (tweakUses codeAcc), no hash query may be made by two gates, and the
         # window scan names the rows of any pair it finds
         ctx.build_drv()
-        kinds = 23
-        acc_plan = [("direct", 200 if quick else 4000, ()), ("cover", 2 * kinds if quick else 12 * kinds, ()),
-                    ("cover", 3 if quick else 24, ("-extra", "long"))]
+        # the instruction set of the streaming garbler, read from the current source: the arms of the opcode switch of
+        # Program.Stream and the keys of the generator table its default arm indexes (harness mode opcat, go/parser)
+        _, _, cat = ctx.run_hx("opcat", 0, extra_args=("-extra", vlib.REPO), tag="-cat")
+        case_ops, gen_ops = cat.get("stream_case_ops") or [], cat.get("stream_generator_ops") or []
+        kinds = int(cat.get("program_kinds") or 0)
+        natives = cat.get("native_files") or []
+        ctx.oblige("the opcode switch of Program.Stream and its generator table are found in the current source "
+                   "(harness mode opcat) and the cover catalogue is not empty",
+                   len(case_ops) >= 3 and len(gen_ops) >= 3 and kinds > 0, str(cat)[:2000])
+        ctx.coverage["stream_opcodes"] = {"switch_arms": case_ops, "generator_table": gen_ops, "native_files": natives}
+        nshapes = 10
+        acc_plan = [("direct", 200 if quick else 4000, ()), ("cover", 4 * kinds if quick else 12 * kinds, ()),
+                    ("cover", 3 if quick else 24, ("-extra", "long")),
+                    ("cover", 2 * len(natives) if quick else nshapes * len(natives), ("-extra", "native"))]
         for mode, n, extra in acc_plan:
-            pre = mode + ("_long_" if extra else "_")
-            ops, out, meta = ctx.run_hx(mode, n, timeout=2400, extra_args=extra, tag="-long" if extra else "")
+            sub = extra[1] if extra else ""
+            pre = mode + ("_%s_" % sub if sub else "_")
+            ops, out, meta = ctx.run_hx(mode, n, timeout=2400, extra_args=extra, tag="-" + sub if sub else "")
             ctx.absorb_meta(meta, prefix=pre)
             if meta.get("reuse_examples"):
                 ctx.coverage.setdefault("reused_hash_query_examples", []).extend(meta["reuse_examples"][:2])
-            ctx.correspond("tweaks under which the rows of real streaming sessions were hashed (%s%s) vs the per-kind "
-                           "accounting tweakUses codeAcc" % (mode, " long" if extra else ""), ops, out)
+            ctx.correspond("tweaks under which the rows of real streaming sessions were hashed vs the per-kind accounting "
+                           "tweakUses codeAcc (op c04acc), and whether every gate input of the stream is a defined wire vs "
+                           "streamDefined = wfFrom (op c04def) (%s%s)" % (mode, " " + sub if sub else ""), ops, out)
             for line in open(ops, errors="replace"):
                 ctx.distinct.add(hashlib.sha1(line.encode()).digest())
         ac = ctx.coverage.get("counters", {})
@@ -151,12 +170,42 @@ def run(ctx):
         ctx.oblige("every transmitted row of every analysed streaming session is reproduced by the model's hash functions under "
                    "some tweak (the shadow garbler explains the whole stream; its wire pairs equal the garbler's wire table)",
                    all(ac.get(p + "shadow_unrecovered_rows", 0) == 0 and ac.get(p + "shadow_unknown_input", 0) == 0
-                       and ac.get(p + "shadow_gates", 0) > 0 for p in ("direct_", "cover_", "cover_long_"))
+                       and ac.get(p + "shadow_gates", 0) > 0 for p in ("direct_", "cover_", "cover_long_", "cover_native_"))
                    and ac.get("direct_shadow_pairs_equal_garbler_wire_table", 0) == ac.get("direct_sessions_direct", -1)
                    and ac.get("direct_shadow_pairs_differ_from_garbler_wire_table", 0) == 0, str(sh))
         ctx.oblige("no hash query (AES input block) is made by two different gates of a stream",
-                   all(ac.get(p + "sessions_with_reused_hash_query", 0) == 0 for p in ("direct_", "cover_", "cover_long_")),
+                   all(ac.get(p + "sessions_with_reused_hash_query", 0) == 0
+                       for p in ("direct_", "cover_", "cover_long_", "cover_native_")),
                    json.dumps(ctx.coverage.get("reused_hash_query_examples", [])[:2], indent=1)[:5000])
+        # the label-level invariant on the real streaming garbler: every gate input of every analysed stream is a defined
+        # wire whose two labels differ by the offset (a violation is reported by the harness as a failing input)
+        modes4 = ("direct_", "cover_", "cover_long_", "cover_native_")
+        ctx.oblige("every gate input of every analysed stream was judged (defined wire, label pair) and none failed without "
+                   "a failing input being reported",
+                   all(ac.get(p + "shadow_gate_inputs_checked", 0) > 0 for p in modes4)
+                   and (sum(ac.get(p + k, 0) for p in modes4 for k in ("shadow_undefined_gate_inputs",
+                        "shadow_gate_inputs_not_a_label_pair", "shadow_degenerate_rows")) == 0 or bool(ctx.fails)),
+                   str({k: v for k, v in ac.items() if "gate_inputs" in k or "degenerate" in k}))
+        # instruction-set coverage: every opcode Program.Stream handles occurred in a session that ran to the end.  The
+        # front end of the pinned tree cannot emit three of them (concat has no constructor call; bts / btc come from
+        # the peephole pass, which package.go disables): the catalogue has the programs that would produce bts / btc,
+        # so they are counted as soon as the pass is enabled
+        unproducible = {"concat", "bts", "btc"}
+        seen_ops = {k[len("cover_ssa_op_"):] for k, v in ac.items() if k.startswith("cover_ssa_op_") and v > 0}
+        seen_ops |= {k[len("cover_native_ssa_op_"):] for k, v in ac.items() if k.startswith("cover_native_ssa_op_") and v > 0}
+        handled = set(case_ops) | set(gen_ops)
+        missing_ops = sorted(handled - seen_ops - unproducible)
+        ctx.oblige("every opcode Program.Stream handles (arms of its opcode switch + generator table, read from the current "
+                   "source) occurred in a streamed session of mode cover", bool(handled) and not missing_ops,
+                   "missing: %s; handled: %s" % (missing_ops, sorted(handled)))
+        ctx.advise("opcodes Program.Stream handles that no program of the cover catalogue compiles to",
+                   sorted(handled - seen_ops), sorted(unproducible & handled))
+        ctx.oblige("native(...) calls: every circuit file under $MPCLDIR/pkg that circuit.Parse accepts was streamed, with "
+                   "arguments narrower than / as wide as the declared input, constant and run-time",
+                   len(natives) > 0 and all(ac.get("cover_native_kind_native_" + os.path.basename(f), 0) > 0 for f in natives)
+                   and all(ac.get("cover_native_ssa_op_" + k, 0) > 0 for k in
+                           ("circ", "circ_arg_narrower_than_declared", "circ_arg_as_declared", "circ_arg_constant")),
+                   str({k: v for k, v in ac.items() if k.startswith("cover_native_kind") or "circ" in k}))
         need = ["direct_adj_%s_%s_shared" % (a, b) for a in "xnaoi" for b in "aoi"]
         need += ["direct_adj_%s_%s_aa" % (a, b) for a in "aoi" for b in "aoi"]
         need += ["direct_adj_across_blocks_shared", "direct_gates_wide_ids"]
@@ -170,14 +219,18 @@ def run(ctx):
                  "cover_adj_x_i_shared", "cover_adj_n_i_shared", "cover_adj_across_blocks_shared",
                  "cover_sessions_with_ot_on_the_wire", "cover_programs_signed", "cover_long_adj_i_a_aa"]
         need += ["cover_kind_" + k for k in ("sub lt gt le ge eq ne div mod mul add and or xor bclr subc csub ltc divc shl shr "
-                                             "mux index").split()]
+                                             "mux index lnot land lor cast aslice bittest shiftwide builtin").split()]
+        # operand shapes of the binary operators
+        need += ["cover_kind_shape_" + k for k in ("value_narrowconst narrowconst_value value_fullconst value_typedconst "
+                                                   "typedconst_value const_const same_twice value_topbitconst value_wideconst").split()]
         need += ["%srows_offset_mod16_%d" % (p, i) for p in ("direct_", "cover_") for i in range(16)]
         missing = [k for k in need if ac.get(k, 0) <= 0]
         ctx.oblige("gate-kind coverage of the streaming sessions: every gate kind followed by every tweak-consuming kind on a "
                    "shared wire with both permute-bit values of its inputs (direct), every adjacency class compiled programs produce and "
                    "every instruction kind (cover), "
                    "rows at every offset residue mod 16, 16- and 32-bit wire ids, real OT on the wire",
-                   not missing and ac.get("cover_programs_rejected_by_compiler", 0) * 10 <= ac.get("cover_programs", 0),
+                   not missing and ac.get("cover_programs_rejected_by_compiler", 0) * 10 <= ac.get("cover_programs", 0)
+                   and ac.get("cover_native_programs_rejected_by_compiler", 0) * 10 <= ac.get("cover_native_programs", 0),
                    "missing: %s" % missing)
         ctx.coverage["adjacency_classes"] = {k: v for k, v in ac.items() if "_adj_" in k}
         # a garbler PROCESS: 2..4 overlapping sessions on one shared circuit value, evaluators stalling at seeded protocol
@@ -210,20 +263,29 @@ def run(ctx):
                     ctx.absorb_meta(meta, prefix="widen_")
                 ops, out, meta = ctx.run_hx("overlap", 1500, seed=s, tag="-widen-proc", timeout=2400)
                 ctx.absorb_meta(meta, prefix="widen_")
-                for mode, n in (("direct", 2000), ("cover", 230)):
+                for mode, n in (("direct", 2000), ("cover", 10 * max(kinds, 23))):
                     ops, out, meta = ctx.run_hx(mode, n, seed=s, tag="-widen", timeout=2400)
                     ctx.absorb_meta(meta, prefix="widen_")
+                ops, out, meta = ctx.run_hx("cover", nshapes * max(len(natives), 1), seed=s, tag="-widen-native", timeout=2400,
+                                            extra_args=("-extra", "native"))
+                ctx.absorb_meta(meta, prefix="widen_")
                 if ctx.fails:
                     break
     ctx.coverage["rule"] = ("sessions of the three garbler protocols with real OT on the wire; every byte offset of the complete "
                             "garbler->evaluator stream is a 16-byte window; processes of 2..4 overlapping sessions on one shared "
                             "circuit value (deterministic sequential scheduler over evaluator stall points, 4 policies, failing "
                             "Garble calls), oracle over the union of all sessions' streams and OT results against secrets "
-                            "re-derived from the recorded tapes; streaming sessions chosen by gate-kind coverage (mode cover: one focus "
-                            "instruction kind per program out of 23, 12 widths, both signednesses, 4+ independent tapes per program, "
-                            "CO and ideal OT alternating; mode direct: Streaming.Garble on histories of generated instruction "
+                            "re-derived from the recorded tapes; streaming sessions chosen by gate-kind and instruction-set coverage "
+                            "(mode cover: one focus instruction kind per program out of the catalogue (31 kinds), the binary "
+                            "operators with their operands in 9 shapes (constant narrower than / as wide as / wider than the "
+                            "other operand, on either side, constant-only, one operand twice), 12 widths, both signednesses, "
+                            "4+ independent tapes per program, CO and ideal OT alternating; every opcode Program.Stream handles "
+                            "(read from the current source) must occur; -extra native: every circuit file under $MPCLDIR/pkg "
+                            "called through native() with run-time and constant arguments in every position, narrower than and "
+                            "as wide as the declared input; mode direct: Streaming.Garble on histories of generated instruction "
                             "circuits, all 15 classes (gate kind, next tweak-consuming kind) on shared wires, 16/32-bit ids), each "
-                            "analysed gate by gate by a shadow garbler that re-derives every label and every tweak from the stream; "
+                            "analysed gate by gate by a shadow garbler that re-derives every label and every tweak from the stream "
+                            "and judges every gate input (defined wire, two labels differing by the offset); "
                             "distinct = distinct (circuit/program, inputs, OT, schedule) lines")
     ctx.assumptions += [
         "the free-hash model keeps the half-gate hash (encryptHalf) and the table pad (encrypt) as independent families; in "
@@ -257,4 +319,11 @@ def run(ctx):
         "(C04_stream_safe_accounting); an accounting that reserves nothing for INV leaks through INV(a), AND(a, b) "
         "(C04_inv_zero_tweak_stream_leaks; the code's unary pad is the half-gate hash: hashOf_unary).  Modes cover / direct: "
         "the tweaks under which the rows of real streaming sessions were hashed, re-derived from the stream, equal "
-        "tweakUses codeAcc (op c04acc); no AES input block is queried by two gates; every gate-adjacency class occurred.")
+        "tweakUses codeAcc (op c04acc); no AES input block is queried by two gates; every gate-adjacency class occurred.  "
+        "Definedness (Model/StreamDef.lean): the streaming theorems assume that every gate input of the stream is a session "
+        "input wire or the output of an earlier gate (wfFrom); the shadow garbler judges exactly that on every gate input of "
+        "every analysed real session (a temporary wire must have been written by the same instruction circuit) and that the "
+        "two labels of the wire differ by the offset, a violation being a failing input; the verdict is compared with "
+        "streamDefined = wfFrom on the same gate list (op c04def, wfArr_eq_wfFrom, C04_stream_defined_sessions_secret); for "
+        "an undefined input the transmitted rows are the offset or a raw label (C04_undefined_input_and_rows, "
+        "C04_stream_undefined_input_leaks).")
